@@ -1263,21 +1263,21 @@ func task(name string) *roleIn { return &roleIn{Kind: "task", Name: tl(name), Lo
 func corpus() []*input {
 	empty := func() map[string]string { return map[string]string{} }
 	var out []*input
-	// witness of C15_error_fails_refuted (C15-a): ill-formed `enabled`
+	// witness of C15_error_fails_legacy_refuted (repaired C15-a: the load fails now): ill-formed `enabled`
 	t1 := task("t1")
 	t1.Enabled = tptr(texpr{bad(0)})
-	out = append(out, &input{D: empty(), V: empty(), U: empty(), Note: "C15-a witness",
+	out = append(out, &input{D: empty(), V: empty(), U: empty(), Note: "C15-a regression",
 		Root: &roleIn{Kind: "agg", Name: tl("r"), Kids: []*roleIn{t1, task("t2")}}})
 	// C15-a, undefined variable in `enabled`
 	t1b := task("t1")
 	t1b.Enabled = tptr(texpr{piece{Eq: &[2]string{"nokey", "a"}}})
 	out = append(out, &input{D: empty(), V: empty(), U: empty(), Note: "C15-a undefined variable",
 		Root: &roleIn{Kind: "agg", Name: tl("r"), Kids: []*roleIn{t1b, task("t2")}}})
-	// witness of C15_iterator_enabled_refuted (C15-b)
+	// witness of C15_iterator_enabled_legacy_refuted (repaired C15-b: the iterator is kept now)
 	it := &roleIn{Kind: "task", Name: texpr{lit("i"), pvar("it")}, Load: tl("c"),
 		Enabled: tptr(texpr{piece{Eq: &[2]string{"x", "a"}}}),
 		For:     &forIn{Range: tl(`["p"]`), Var: "it"}}
-	out = append(out, &input{D: empty(), V: map[string]string{"x": "a"}, U: empty(), Note: "C15-b witness",
+	out = append(out, &input{D: empty(), V: map[string]string{"x": "a"}, U: empty(), Note: "C15-b regression",
 		Root: &roleIn{Kind: "agg", Name: tl("r"), Kids: []*roleIn{it, task("t2")}}})
 	// C15-b, `enabled` depends on the element
 	it2 := &roleIn{Kind: "task", Name: texpr{lit("i"), pvar("it")}, Load: tl("c"),
@@ -1285,9 +1285,9 @@ func corpus() []*input {
 		For:     &forIn{Range: tl(`["p","q"]`), Var: "it"}}
 	out = append(out, &input{D: empty(), V: empty(), U: empty(), Note: "C15-b per element",
 		Root: &roleIn{Kind: "agg", Name: tl("r"), Kids: []*roleIn{it2, task("t2")}}})
-	// witness of C15_no_visibly_empty_refuted (C15-d)
+	// witness of C15_no_visibly_empty_legacy_refuted (repaired C15-d: the aggregator disappears now)
 	e := &roleIn{Kind: "task", Name: texpr{lit("e"), pvar("it")}, Load: tl("c"), For: &forIn{Range: tl(`[]`), Var: "it"}}
-	out = append(out, &input{D: empty(), V: empty(), U: empty(), Note: "C15-d witness",
+	out = append(out, &input{D: empty(), V: empty(), U: empty(), Note: "C15-d regression",
 		Root: &roleIn{Kind: "agg", Name: tl("r"), Kids: []*roleIn{task("t2"), {Kind: "agg", Name: tl("g"), Kids: []*roleIn{e}}}}})
 	// C15-d, all elements disabled
 	q := task("q")
@@ -1296,6 +1296,10 @@ func corpus() []*input {
 		Vars: []field{{"en", tl("false")}}, Kids: []*roleIn{q}}
 	out = append(out, &input{D: empty(), V: empty(), U: empty(), Note: "C15-d all elements disabled",
 		Root: &roleIn{Kind: "agg", Name: tl("r"), Kids: []*roleIn{task("t2"), {Kind: "agg", Name: tl("g"), Kids: []*roleIn{e2}}}}})
+	// repaired C15-d at the root: it disables itself, its Roles slice keeps the empty container
+	e3 := &roleIn{Kind: "task", Name: texpr{lit("e"), pvar("it")}, Load: tl("c"), For: &forIn{Range: tl(`[]`), Var: "it"}}
+	out = append(out, &input{D: empty(), V: empty(), U: empty(), Note: "C15-d root over an empty iterator",
+		Root: &roleIn{Kind: "agg", Name: tl("r"), Kids: []*roleIn{e3}}})
 	// the example of C15_nonvacuous
 	z := task("z")
 	z.Enabled = tptr(texpr{piece{Ne: &[2]string{"x", "a"}}})
